@@ -32,6 +32,13 @@ def run(prop, tier):
             # the update model and vhdlFile.update disagree: a correspondence break; the property
             # failures found in the same sweep (if any) are the concrete inputs
             res.proof_break("correspondence update-model vs vhdlFile.update at %s" % fl["site"], {"detail": fl["detail"], "input": fl.get("input")})
+    if prop in ("C01", "C03"):
+        # the B-full case family: correspondence of case_utils / formal-part / consistent_* / the five fix functions
+        # with the Lean model, and the search on the real code at the points the theorems exclude (extended
+        # identifiers, non-ASCII case pairs, duplicate case exceptions)
+        import props_bcase
+
+        props_bcase.extra(res, tier, prop)
     if prop == "C03":
         # layer B families with their own synthetic + harvested correspondence (evidence under coverage["layer_b_*"])
         for modname in ("props_bind", "props_bws"):
@@ -85,6 +92,10 @@ def replay(prop, path):
         print(json.dumps(d, indent=1)[:3000])
         return 0
     job = d["input"]
+    if job.get("via") == "props_bcase":
+        import props_bcase
+
+        return props_bcase.replay(prop, path)
     found, exc = rp.show(job, None)
     bad = [(st.rule, r) for st, r in found if r[prop.lower()] != "ok"]
     for rule, r in bad:
